@@ -574,6 +574,80 @@ class Wrap(Contract):
         return [('quantity-for-dimensional', z3.BoolVal(isinstance(result, QV) and S.made is S.v))]
 
 
+class CallCheck(Contract):
+    """Dimension.__call__(cls, value) for a string: the parsed quantity is returned only if its dimension is the class's
+    (a bare float exactly for the dimensionless class); otherwise DimensionError."""
+    prop = PROP
+    fn = 'SI:Dimension.__call__'
+
+    def __init__(self, cls_dimensional, parsed):
+        self.cd, self.parsed = cls_dimensional, parsed  # parsed: 'float' | 'same' | 'other'
+        self.label = 'cls=%s,parse->%s' % ('dimensional' if cls_dimensional else 'dimensionless', parsed)
+        self.expect_return = self.accept()
+
+    def accept(self):
+        return (self.parsed == 'float' and not self.cd) or (self.parsed == 'same' and self.cd)
+
+    def setup(self, cx):
+        cls = ClsObj('cls', {'L': SReal(cx.real('e'))} if self.cd else {})
+        other = ClsObj('other', {'T': SReal(cx.real('f'))})
+        S = State(cls=cls)
+        if self.parsed == 'float':
+            q = Val('float-result')
+            q.pytype = lambda ctx: Builtin('float')
+        else:
+            q = InstanceOf(cls if self.parsed == 'same' else other)
+        S.q = q
+        S.args = (cls, StrValue())
+        S.globals = {'Quantity': ClsObj('Quantity', {}), 'parse': lambda ctx, s: q}
+        return S
+
+    def raises(self, cx, S, e):
+        if e.exc == 'DimensionError':
+            return not self.accept()
+        return False
+
+    def ensures(self, cx, S, result):
+        return [('returns-the-parsed-quantity-only-if-dimensions-agree', z3.BoolVal(self.accept() and result is S.q))]
+
+    def replay(self, ob):
+        import os
+        here = os.path.dirname(os.path.dirname(os.path.abspath(__file__)))
+        return "import sys; sys.path.insert(0, %r)\nfrom native import c20\nc20.call_check()\n" % here
+
+
+class ClsObj(DimObj):
+    def __init__(self, name, powers):
+        DimObj.__init__(self, powers)
+        self.cname = name
+        self.attrs['__name__'] = SOpaque('str')
+
+    def identical(self, ctx, other):
+        return other is self
+
+    def compare(self, ctx, op, other, reflected):
+        if op in ('==', '!='):
+            same = other is self
+            return same if op == '==' else not same
+        return NotImplemented
+
+
+class InstanceOf(Sym):
+    def __init__(self, cls):
+        self.cls = cls
+
+    def pytype(self, ctx):
+        return self.cls
+
+    def isinstance_(self, ctx, types):
+        return any(t is self.cls or getattr(t, 'cname', None) == 'Quantity' for t in types)
+
+
+class StrValue(Sym):
+    def isinstance_(self, ctx, types):
+        return str in types
+
+
 # ---- registration table -------------------------------------------------------------------------------------------------
 
 EXPECTED = {
@@ -649,6 +723,7 @@ def contracts():
             for kb in subsets:
                 cs.append(Algebra(m, ka, kb))
     cs += [Pow('int'), Pow('fraction'), Wrap(True), Wrap(False)]
+    cs += [CallCheck(cd, p) for cd in (False, True) for p in ('float', 'same', 'other')]
     return cs
 
 
